@@ -81,6 +81,7 @@ class Ctx:
         self.errors = []
         self.t0 = time.time()
         self.notes = {}
+        self.blobs = {}
 
     # ---- case bookkeeping
     def begin_case(self, case):
@@ -152,5 +153,6 @@ class Ctx:
             "n_errors": len(self.errors),
             "notes": {k: sorted(v)[:2000] for k, v in self.notes.items()},
             "wall_s": time.time() - self.t0,
+            "blobs": self.blobs,
             "uxarray_file": getattr(__import__("sys").modules.get("uxarray"), "__file__", None),
         }
